@@ -77,36 +77,54 @@ def plan(rnd, max_len):
     return specs
 
 
-def run(seed, local_max, peer_max, specs=None, timeout=3600, delivery='random'):
-    """-> dict(world pieces): sends (SendRecord list), peer (ScriptedAcceptor), errors."""
+def run(seed, local_max, peer_max, specs=None, timeout=3600, delivery='random', nassoc=1,
+        senders=1, fine=None):
+    """-> dict: world, assocs = [dict(peer, sends, result, user tasks)], and for nassoc == 1 the
+    flat keys peer/sends/result/user for the single association.
+
+    nassoc > 1: that many ClientAEs/associations at the same time (each to its own scripted
+    acceptor).  senders > 1: that many caller threads share ONE association object.
+    fine: set of function names for line-level pre-emption (None = off)."""
     from pynetdicom2 import applicationentity, sopclass, dimsemessages
+    from . import preempt
     rnd = random.Random('ds/%s' % seed)
     world = SimWorld('ds/%s' % seed, with_fs=True, delivery=delivery)
-    out = {'world': world}
+    out = {'world': world, 'assocs': []}
+    pre = None
     try:
         world.watch_sends()
-        world.serve_peer(ADDR, lambda sock: peers.ScriptedAcceptor(world.sim, sock,
-                                                                    max_length=peer_max))
-        ae = world.make_ae(applicationentity.ClientAE, 'CLI', [rc.IMPLICIT_LE], local_max)
-        ae.timeout = timeout
-        ae.add_scu(sopclass.storage_scu, [SOP])
+        if fine:
+            pre = preempt.Preempter(world.sim, prob=0.4, funcs=set(fine))
+            pre.install()
         neg = peer_max if (peer_max and (not local_max or peer_max < local_max)) else local_max
-        if specs is None:
-            specs = plan(rnd, neg if neg else 64)
-        out['specs'] = specs
-        result = {}
+        all_specs = []
+        for a_i in range(nassoc):
+            addr = (ADDR[0], ADDR[1] + a_i)
+            world.serve_peer(addr, lambda sock: peers.ScriptedAcceptor(world.sim, sock,
+                                                                       max_length=peer_max))
+            ae = world.make_ae(applicationentity.ClientAE, 'CLI%d' % a_i, [rc.IMPLICIT_LE],
+                               local_max)
+            ae.timeout = timeout
+            ae.add_scu(sopclass.storage_scu, [SOP])
+            sp_lists = []
+            for s_i in range(senders):
+                sp = specs if (specs is not None and a_i == 0 and s_i == 0) else \
+                    plan(rnd, neg if neg else 64)
+                sp_lists.append(sp)
+            all_specs.append(sp_lists)
+            rec = {'ae': ae, 'addr': addr, 'result': {}, 'users': [], 'specs': sp_lists,
+                   'assoc': None}
+            out['assocs'].append(rec)
 
-        def user():
-            with ae.request_association({'aet': 'SRV', 'address': ADDR[0], 'port': ADDR[1]}) as a:
-                result['negotiated'] = a.max_pdu_length
-                for i, sp in enumerate(specs):
+            def send_all(a, sp_list, tag, rec=rec):
+                for i, sp in enumerate(sp_list):
                     cls = dimsemessages.MESSAGE_TYPE[sp['cf']]
                     msg = cls()
                     fill(msg, rnd, sp['full'])
                     if sp['data'] != 'none':
                         payload = bytes(rnd.randrange(256) for _ in range(sp['size']))
                         if sp['data'] == 'file':
-                            path = '/src/f%d' % i
+                            path = '/src/%s_f%d' % (tag, i)
                             world.fs.put(path, b'HDR!' + payload)
                             fp = world.fs.open(path, 'rb')
                             fp.seek(4)
@@ -115,8 +133,6 @@ def run(seed, local_max, peer_max, specs=None, timeout=3600, delivery='random'):
                             msg.data_set = payload
                     a.send(msg, sp['pcid'])
                     for r in range(sp['resend']):
-                        # the provider loops of the library reuse one response object: change
-                        # fields and data, send again (qr_find_scp / qr_move_scp idiom)
                         if sp['data'] == 'file':
                             break
                         fill(msg, rnd, True)
@@ -126,27 +142,93 @@ def run(seed, local_max, peer_max, specs=None, timeout=3600, delivery='random'):
                         a.send(msg, sp['pcid'])
                     if sp['pause']:
                         world.sim.sleep(sp['pause'])
-            result['done'] = True
-        t = world.spawn(user, 'user')
+
+            def user(rec=rec, a_i=a_i):
+                with rec['ae'].request_association({'aet': 'SRV', 'address': rec['addr'][0],
+                                                    'port': rec['addr'][1]}) as a:
+                    rec['result']['negotiated'] = a.max_pdu_length
+                    rec['assoc'] = a
+                    extra = []
+                    for s_i in range(1, senders):
+                        extra.append(world.spawn(
+                            lambda s_i=s_i: send_all(a, rec['specs'][s_i], 'a%ds%d' % (a_i, s_i)),
+                            'sender%d_%d' % (a_i, s_i)))
+                    rec['users'] += extra
+                    send_all(a, rec['specs'][0], 'a%ds0' % a_i)
+                    world.sim.wait(lambda: all(t.done for t in extra), 600.0, 'join')
+                rec['result']['done'] = True
+            rec['users'].append(world.spawn(user, 'user%d' % a_i))
         world.run(tmax=timeout + 100)
         world.drain(2.0)
-        out['user'] = t
-        out['result'] = result
-        out['peer'] = world.peers[0] if world.peers else None
-        out['sends'] = world.sends
+        if pre is not None:
+            pre.uninstall()
+            pre = None
+        by_assoc = {}
+        for s_ in world.sends:
+            by_assoc.setdefault(id(s_.assoc), []).append(s_)
+        for i_, rec in enumerate(out['assocs']):
+            rec['peer'] = world.peers[i_] if i_ < len(world.peers) else None
+            # peers are created in connection order, which may differ from AE order
+        # map peers to associations by calling AE title
+        for rec in out['assocs']:
+            title = rec['ae'].local_ae['aet']
+            rec['peer'] = next((p for p in world.peers if p.rq and p.rq['calling'] == title), None)
+            rec['sends'] = by_assoc.get(id(rec['assoc']), []) if rec['assoc'] is not None else []
+        first = out['assocs'][0]
+        out['user'] = first['users'][0]
+        out['result'] = first['result']
+        out['peer'] = first['peer']
+        out['sends'] = first['sends']
+        out['specs'] = first['specs'][0]
         return out
     except BaseException:
+        if pre is not None:
+            pre.uninstall()
         world.close()
         raise
 
 
-def pair_up(out):
-    """Match the k-th send with the k-th message group seen on the wire.
-    -> list of (SendRecord, [parsed P-DATA-TF PDUs])."""
+def pair_up(out, by_content=False):
+    """Match sends with the message groups seen on the wire: by position (one caller thread)
+    or by content (several caller threads on one association).
+    -> list of (SendRecord, [parsed P-DATA-TF PDUs] | None), all groups."""
     peer = out['peer']
     groups = peers.group_messages(peer.pdata if peer else [])
     sends = out['sends']
     pairs = []
-    for i, s in enumerate(sends):
-        pairs.append((s, groups[i] if i < len(groups) else None))
+    if not by_content:
+        for i, s in enumerate(sends):
+            pairs.append((s, groups[i] if i < len(groups) else None))
+        return pairs, groups
+    left = list(groups)
+    for s in sends:
+        hit = None
+        want = norm_fields({k: v for k, v in s.fields.items() if k < 0x10000})
+        for g in left:
+            _, cmd, data = peers.check_fragmentation(g, 0, None)
+            if (data or None) == ((s.data if isinstance(s.data, bytes) else None) or None):
+                f, _p = rc.check_command(cmd)
+                if norm_fields(f) == want:
+                    hit = g
+                    break
+        if hit is not None:
+            left.remove(hit)
+        pairs.append((s, hit))
+    out['unmatched_groups'] = left
     return pairs, groups
+
+
+def norm_fields(f):
+    """Comparable view of a command set (group length dropped, empty values unified)."""
+    out = {}
+    for k, v in f.items():
+        if k == 0:
+            continue
+        if v == '' or v == b'' or v == ():
+            v = ''
+        elif k == 0x0800:
+            v = 'none' if v == rc.NO_DATASET else 'present'
+        elif rc.CMD_VR.get(k) == 'AT':
+            v = 'AT'
+        out[k] = v
+    return out
